@@ -121,3 +121,9 @@ MUTANTS += [
     dict(prop="C19", name="Term hash on label", file="data/terms.py", old="        return hash(self.name)", new="        return hash(self.label)", expect="clean"),
     dict(prop="C19", name="SoundEvent hash on geometry id", file="data/sound_events.py", old="        return hash(self.uuid)", new="        return hash(id(self.geometry))"),
 ]
+MUTANTS += [
+    dict(prop="C13", name="matrix not symmetric (row/col same order)", file=GO, old="        row.extend([index2, index1])", new="        row.extend([index1, index2])"),
+    dict(prop="C13", name="similarity inverted", file=GO, old="        if not comparison_fn(se1, se2):\n            continue", new="        if comparison_fn(se1, se2):\n            continue"),
+    dict(prop="C13", name="labels ignored: one sequence per event", file=GO, old="    for sound_event, label in zip(sound_events, labels):\n        sequence = sequences[label]", new="    for sound_event, label in zip(sound_events, range(len(labels))):\n        sequence = sequences[label]"),
+    dict(prop="C13", name="matrix one column short", file=GO, old="        shape=(rows, rows),", new="        shape=(rows, rows + 1),"),
+]
